@@ -80,7 +80,7 @@ theorem store_deliver_keywise_aux (kind : Kind) (st : SSt) (m : Nat) (msg : Msg)
     split
     · simp [runX, Sys.stepX, Sys.step, Sys.set, Rep.merge]
     · simp [runX]
-  simp only [SSt.step, sysAt_applyOps, PSt.step, hm]
+  simp only [SSt.step, sysAt_applyOps, PSt.step, PSt.dlStep, hm]
   split
   · rw [keyX_append, runX_append, keyX_emit_rep _ _ _ _ _ _ _ (by rw [mergeKeys_n]; exact hd)]
     exact core
